@@ -39,7 +39,23 @@ FirstBadRes(res, E, F, i) ==
   ELSE LET b == BadField(res[i], E, F) IN IF b = "ok" THEN FirstBadRes(res, E, F, i + 1) ELSE <<i, b>>
 
 \* <<index of the first segmentation that disagrees (0 = none), collector path, expected cardinality>>
+\* a top-level phrase of three or more terms with slop: every collector path must return the same set, scoring on or off, and the
+\* set must lie between the exact-phrase matches and the documents with some assignment within the slop budget
+Slop3Diag(c, e) ==
+  LET del == SeqSet(c.deleted)
+      live == {i \in 1..Len(c.docs) : c.docs[i].id \notin del}
+      Lo == {c.docs[i].id : i \in {j \in live : PhraseExact(Vals(c.docs[j], e.q.f), e.q.ts)}}
+      Up == {c.docs[i].id : i \in {j \in live : WithinBudget(Vals(c.docs[j], e.q.f), e.q.ts, e.q.slop)}}
+      Obs == SeqSet(e.res[1].docset)
+      T == e.res[1].filter_ge
+      F == {x \in Obs : \E k \in 1..Len(c.docs[x + 1].num) : c.docs[x + 1].num[k] >= T} IN
+  IF ~(Lo \subseteq Obs /\ Obs \subseteq Up)
+  THEN <<1, "phrase with slop over 3+ terms: answer outside [exact phrase, some assignment within the slop budget]", Cardinality(Lo)>>
+  ELSE LET b == FirstBadRes(e.res, Obs, F, 1) IN
+       <<b[1], IF b[1] = 0 THEN "ok" ELSE b[2] \o " (differs from DocSetCollector on a phrase with slop over 3+ terms)", Cardinality(Obs)>>
+
 SearchDiag(c, e) ==
+  IF IsSlopPhrase3(e.q) THEN Slop3Diag(c, e) ELSE
   LET X == ExpectedIdx(c, e.q)
       E == {c.docs[i].id : i \in X}
       T == e.res[1].filter_ge
